@@ -26,6 +26,8 @@ import (
 //	R-path             sibling agreement per transport: if any builder applies the configured path, all do
 //	R-session-header   sibling agreement per transport: if any builder sets Mcp-Session-Id, all do
 //	R-url-verbatim      the request address is the configured URL rendered verbatim
+//	R-path-verbatim     the member copied into the request URL.s path holds the configured path as given
+//	R-hook-error-fails  every client function on the way up hands the error of a send on (no successful return from its failed edge)
 func init() { Registry["C19"] = checkC19 }
 
 type builder struct {
@@ -350,6 +352,8 @@ func checkC19(c *Ctx) {
 	}
 	c.R.Min("R-session-header", 5)
 	c19URLVerbatim(c, builders)
+	c19PathVerbatim(c)
+	c19HookErrorFails(c, builders)
 	c19Suppressors(c, builders)
 	c19HeaderMerge(c)
 	c19SessionKept(c, builders)
@@ -1275,4 +1279,259 @@ func c19URLVerbatim(c *Ctx, builders []*builder) {
 			sprintf("%s does not send its request to the configured URL as it was given: %s — components it does not copy (the query string) are lost on every request", fname(b.fn), why))
 	}
 	c.R.Min("R-url-verbatim", 9)
+}
+
+// ---------------------------------------------------------------- R-path-verbatim
+// "Goes to the configured URL and path": the member the request builders copy into req.URL.Path holds the path the
+// user configured, as given. Every value stored into that member — and into a member it is initialised from — is a
+// parameter / captured option argument, a constant, or another such member; a value computed from the configured one
+// (path.Clean, TrimSuffix, concatenation) sends every request somewhere else for the inputs the computation changes.
+func c19PathVerbatim(c *Ctx) {
+	// members stored into URL.Path
+	members := map[string]bool{}
+	for _, fn := range c.P.LibFns {
+		if !clientSide(c, fn) {
+			continue
+		}
+		ir.EachInstr(fn, func(_ *ssa.BasicBlock, _ int, in ssa.Instruction) {
+			st, ok := in.(*ssa.Store)
+			if !ok {
+				return
+			}
+			fa, ok := st.Addr.(*ssa.FieldAddr)
+			if !ok {
+				return
+			}
+			f, _, ok := ir.FieldOf(fa)
+			if !ok || f.Name != "Path" || f.Struct == nil || ir.TypeKey(f.Struct) != "net/url.URL" {
+				return
+			}
+			if lf, _, ok := ir.LoadedField(st.Val); ok {
+				members[lf.Key()] = true
+			}
+		})
+	}
+	if len(members) == 0 {
+		c.R.Break("R-path-verbatim: no member is copied into the request URL's Path")
+		return
+	}
+	n := 0
+	done := map[string]bool{}
+	var visit func(key string, d int)
+	visit = func(key string, d int) {
+		if done[key] || d > 3 {
+			return
+		}
+		done[key] = true
+		for _, fn := range c.P.LibFns {
+			ir.EachInstr(fn, func(_ *ssa.BasicBlock, _ int, in ssa.Instruction) {
+				st, ok := in.(*ssa.Store)
+				if !ok {
+					return
+				}
+				fa, ok := st.Addr.(*ssa.FieldAddr)
+				if !ok {
+					return
+				}
+				f, _, ok := ir.FieldOf(fa)
+				if !ok || f.Key() != key {
+					return
+				}
+				n++
+				v := unspill(st.Val)
+				why := ""
+				switch x := v.(type) {
+				case *ssa.Parameter, *ssa.FreeVar, *ssa.Const:
+				case *ssa.UnOp:
+					if lf, _, ok := ir.LoadedField(x); ok {
+						visit(lf.Key(), d+1)
+					} else if _, isFV := x.X.(*ssa.FreeVar); !isFV {
+						why = "a value that is not the configured one"
+					}
+				case *ssa.Call:
+					why = "the result of " + ir.CallName(x)
+				case *ssa.BinOp:
+					why = "a concatenation"
+				case *ssa.Slice:
+					why = "a slice of the configured string"
+				case *ssa.Phi:
+					for _, e := range x.Edges {
+						switch e.(type) {
+						case *ssa.Call, *ssa.BinOp, *ssa.Slice:
+							why = "a value computed on some path"
+						}
+					}
+				default:
+					why = "a computed value"
+				}
+				c.R.Check(why == "", "R-path-verbatim", sprintf("value stored into %s by %s", key, fname(fn)), c.Pos(st.Pos()),
+					"the configured path as given",
+					sprintf("%s stores %s into %s, the member every request builder copies into the request URL's path: for the paths that computation changes (a trailing slash, for instance) every request goes to another path than the configured one", fname(fn), why, key))
+			})
+		}
+	}
+	keys := make([]string, 0, len(members))
+	for k := range members {
+		keys = append(keys, k)
+	}
+	sort.Strings(keys)
+	for _, k := range keys {
+		visit(k, 0)
+	}
+	c.R.Min("R-path-verbatim", 2)
+	if n == 0 {
+		c.R.Break("R-path-verbatim: no store into the path member found")
+	}
+}
+
+// ---------------------------------------------------------------- R-hook-error-fails
+// "When that function returns an error nothing is sent and the operation fails with that error." The request builders
+// return the before-request function's error; the clause holds only if every client function on the way up hands it
+// on. For every call, in a client-side function that itself returns an error, of something from which a request
+// builder is reachable: the error it returns is returned directly, or tested against nil with no path from the
+// "failed" edge to a return whose error result is nil (logging it and carrying on reports success for a request that
+// was never sent).
+func c19HookErrorFails(c *Ctx, builders []*builder) {
+	sends := map[*ssa.Function]bool{}
+	for _, b := range builders {
+		sends[b.fn] = true
+	}
+	for changed := true; changed; {
+		changed = false
+		for _, fn := range c.P.LibFns {
+			if sends[fn] || !clientSide(c, fn) {
+				continue
+			}
+			ir.EachCall(fn, func(call ssa.CallInstruction) {
+				if _, isGo := call.(*ssa.Go); isGo {
+					return
+				}
+				for _, cal := range ir.Callees(c.G, call) {
+					if sends[cal] && !sends[fn] {
+						sends[fn] = true
+						changed = true
+					}
+				}
+			})
+		}
+	}
+	isErr := func(t types.Type) bool { return ir.TypeStr(t) == "error" }
+	n := 0
+	for _, fn := range sortedFuncs(sends) {
+		res := fn.Signature.Results()
+		if res.Len() == 0 || !isErr(res.At(res.Len()-1).Type()) {
+			continue // a background function: it has nobody to fail for
+		}
+		ir.EachInstr(fn, func(_ *ssa.BasicBlock, _ int, in ssa.Instruction) {
+			call, ok := in.(*ssa.Call)
+			if !ok {
+				return
+			}
+			reaches := false
+			for _, cal := range ir.Callees(c.G, call) {
+				if sends[cal] && cal != fn {
+					reaches = true
+				}
+			}
+			if !reaches {
+				return
+			}
+			// the error result of the call
+			var errv ssa.Value
+			switch t := call.Type().(type) {
+			case *types.Tuple:
+				if t.Len() > 0 && isErr(t.At(t.Len()-1).Type()) && call.Referrers() != nil {
+					for _, r := range *call.Referrers() {
+						if ex, ok := r.(*ssa.Extract); ok && ex.Index == t.Len()-1 {
+							errv = ex
+						}
+					}
+					if errv == nil {
+						n++
+						c.R.Violate("R-hook-error-fails", sprintf("error of the send in %s #%d", fname(fn), n), c.Pos(call.Pos()),
+							sprintf("%s discards the error returned by %s: a failed before-request function (nothing was sent) does not fail the operation", fname(fn), ir.CallName(call)))
+						return
+					}
+				}
+			default:
+				if isErr(call.Type()) {
+					errv = call
+				}
+			}
+			if errv == nil {
+				return
+			}
+			n++
+			construct := sprintf("error of the send in %s #%d", fname(fn), n)
+			// returned directly / stored for a deferred or later return?
+			bad := ""
+			tested := false
+			var visitUse func(v ssa.Value, d int)
+			seen := map[ssa.Value]bool{}
+			visitUse = func(v ssa.Value, d int) {
+				if v.Referrers() == nil || d > 4 || seen[v] {
+					return
+				}
+				seen[v] = true
+				for _, r := range *v.Referrers() {
+					switch y := r.(type) {
+					case *ssa.Return:
+						tested = true
+					case *ssa.Store:
+						tested = true // kept in a variable (named result, lastErr): judged where that is used
+					case *ssa.Phi:
+						visitUse(y, d+1)
+					case *ssa.BinOp:
+						ev, op, ok := nilCompare(y)
+						if !ok || ev != v || y.Referrers() == nil {
+							continue
+						}
+						for _, rr := range *y.Referrers() {
+							ifi, ok := rr.(*ssa.If)
+							if !ok {
+								continue
+							}
+							tested = true
+							failed := ifi.Block().Succs[0]
+							if op == token.EQL {
+								failed = ifi.Block().Succs[1]
+							}
+							for b := range flow.BlocksReachableAvoiding(failed, nil) {
+								ret, ok := b.Instrs[len(b.Instrs)-1].(*ssa.Return)
+								if !ok || b == fn.Recover {
+									continue
+								}
+								rs := ir.Results(ret)
+								if len(rs) > 0 && ir.IsNilConst(rs[len(rs)-1]) {
+									// reachable from the failed edge: is this return also only reachable through it
+									// after a retry/fallback that succeeded? — a later send on the way counts as such
+									again := false
+									ir.EachInstr(fn, func(_ *ssa.BasicBlock, _ int, in2 ssa.Instruction) {
+										if c2, ok := in2.(*ssa.Call); ok && flow.Reaches(ifi, c2) && flow.Reaches(c2, ret) { // (c2 may be the call itself: a retry loop)
+											for _, cal := range ir.Callees(c.G, c2) {
+												if sends[cal] {
+													again = true
+												}
+											}
+										}
+									})
+									if !again {
+										bad = sprintf("the failed edge reaches the successful return at %s", c.Pos(ret.Pos()))
+									}
+								}
+							}
+						}
+					}
+				}
+			}
+			visitUse(errv, 0)
+			if !tested {
+				bad = "the error is neither returned nor tested"
+			}
+			c.R.Check(bad == "", "R-hook-error-fails", construct, c.Pos(call.Pos()),
+				"the error is returned, or every path from its non-nil edge ends in a failure",
+				sprintf("%s calls %s, which sends a request and returns the before-request function's error, but does not fail with it (%s): the operation reports success although nothing was sent", fname(fn), ir.CallName(call), bad))
+		})
+	}
+	c.R.Min("R-hook-error-fails", 10)
 }
